@@ -13,6 +13,10 @@ It reads, from /repo's current working tree,
   src/primitives/ellipse/points.rs   `Points::new`, `Iterator::next`, `Scanlines::new`
   src/primitives/common/scanline.rs  `Scanline::{new, new_empty, is_empty}`, `Iterator::next`
   src/geometry/mod.rs                `PointExt::length_squared`
+  src/primitives/common/styled_scanline.rs   `StyledScanline::{new, stroke_left, stroke_right, fill}`
+  src/primitives/{circle,ellipse}/styled.rs  `StyledScanlines::{new, next}` (the stroke / fill split of every row; the generic
+                                     `draw_styled` / `StyledPixelsIterator<C>` are NOT translated: listed in `untranslated`
+                                     as far as they are non-generic impls, see the pinned list)
 and writes EG/Generated/CurveSrc.lean: one Lean `def` per Rust function, mirroring the Rust text arm for arm, plus
 one `structure` per Rust `struct` declared in these files (`Circle`, `Ellipse`, `EllipseContains`, `Scanline`,
 `CircleScanlines`, `CirclePoints`, ...: the field lists are regenerated too).
@@ -62,6 +66,9 @@ FILES = {
     "circle_points": "src/primitives/circle/points.rs",
     "ellipse": "src/primitives/ellipse/mod.rs",
     "ellipse_points": "src/primitives/ellipse/points.rs",
+    "styled_scanline": "src/primitives/common/styled_scanline.rs",
+    "circle_styled": "src/primitives/circle/styled.rs",
+    "ellipse_styled": "src/primitives/ellipse/styled.rs",
 }
 # module-qualified names: identifier -> name used in the generated file, per source file
 RENAMES = {
@@ -69,14 +76,18 @@ RENAMES = {
     "circle_points": {"Points": "CirclePoints", "Scanlines": "CircleScanlines"},
     "ellipse": {"Points": "EllipsePoints"},
     "ellipse_points": {"Points": "EllipsePoints", "Scanlines": "EllipseScanlines"},
+    "circle_styled": {"Scanlines": "CircleScanlines", "StyledScanlines": "CircleStyledScanlines",
+                      "StyledPixelsIterator": "CircleStyledPixelsIterator"},
+    "ellipse_styled": {"Scanlines": "EllipseScanlines", "StyledScanlines": "EllipseStyledScanlines",
+                       "StyledPixelsIterator": "EllipseStyledPixelsIterator"},
 }
 # `module::item` paths whose module prefix is dropped (the item is unique among the parsed files)
 MODULE_PREFIXES = {"circle"}
 
 GENERATED_STRUCTS = ["Scanline", "Circle", "CircleScanlines", "CirclePoints", "EllipseContains", "Ellipse",
-                     "EllipseScanlines", "EllipsePoints"]
-INVENTORY_TYPES = ["Circle", "CirclePoints", "CircleScanlines", "Ellipse", "EllipseContains", "EllipsePoints",
-                   "EllipseScanlines", "Scanline"]
+                     "EllipseScanlines", "EllipsePoints", "StyledScanline", "CircleStyledScanlines", "EllipseStyledScanlines"]
+INVENTORY_TYPES = ["Circle", "CirclePoints", "CircleScanlines", "CircleStyledScanlines", "Ellipse", "EllipseContains",
+                   "EllipsePoints", "EllipseScanlines", "EllipseStyledScanlines", "Scanline", "StyledScanline"]
 
 ROOTS_CIRCLE = [
     (None, None, "diameter_to_threshold"),
@@ -98,13 +109,19 @@ ROOTS_ELLIPSE = [
     ("EllipseScanlines", None, "new"), ("EllipseScanlines", "Iterator", "next"),
     ("EllipsePoints", None, "new"), ("EllipsePoints", "Iterator", "next"), ("Ellipse", "PointsIter", "points"),
 ]
-ROOTS = ROOTS_CIRCLE + ROOTS_ELLIPSE
+ROOTS_STYLED = [
+    ("StyledScanline", None, "new"), ("StyledScanline", None, "stroke_left"), ("StyledScanline", None, "stroke_right"),
+    ("StyledScanline", None, "fill"),
+    ("CircleStyledScanlines", None, "new"), ("CircleStyledScanlines", "Iterator", "next"),
+    ("EllipseStyledScanlines", None, "new"), ("EllipseStyledScanlines", "Iterator", "next"),
+]
+ROOTS = ROOTS_CIRCLE + ROOTS_ELLIPSE + ROOTS_STYLED
 
 RANGE_I32 = ("Range", ("i32",))
 LEAN_INT_TYPES = {"i32": "Int", "u32": "Nat", "u64": "Nat"}
 
 # prelude names of this part (a local of the same name gets a trailing `_`)
-CURVE_PRELUDE_NAMES = {"i32_pow", "u32_pow", "range_i32_clone", "range_i32_find", "range_i32_find_map", "option_map", "u32_as_u64", "i32_as_u64",
+CURVE_PRELUDE_NAMES = {"i32_pow", "u32_pow", "range_i32_clone", "range_i32_find", "range_i32_find_map", "option_map", "option_unwrap_or_else", "u32_as_u64", "i32_as_u64",
                        "u64_add", "u64_sub", "u64_mul", "u64_div", "u64_eq", "u64_ne", "u64_lt", "u64_le", "u64_gt", "u64_ge",
                        "CurveSrc"}
 
@@ -451,7 +468,7 @@ class CurveTranslator(tr_rect.Translator):
         btxt, bt = self.tr_expr(cl[3], env2, ctx, expected, ind + 2)
         if bt == "int?":
             raise TrError(f"{W}: cannot tell the type of the closure's value")
-        params = " ".join(self.lvar(p) for p in cl[2])
+        params = " ".join(self.lvar(p) for p in cl[2]) if cl[2] else "(_ : Unit)"
         return f"(fun {params} => {btxt})", bt
 
     def tr_expr(self, e, env, ctx, expected, ind):
@@ -487,7 +504,7 @@ class CurveTranslator(tr_rect.Translator):
     def tr_mcall(self, e, env, ctx, expected, ind):
         _, line, recv, name, turbofish, args = e
         W = f"{self.where}: line {line}"
-        if name in ("pow", "clone", "find", "map", "or_else") and turbofish is None:
+        if name in ("pow", "clone", "find", "map", "or_else", "unwrap_or_else") and turbofish is None:
             rtxt, rt = self.tr_expr(recv, self.nt(env), ctx, None, ind)
             if name == "pow" and rt in ("i32", "u32"):
                 if len(args) != 1:
@@ -514,6 +531,12 @@ class CurveTranslator(tr_rect.Translator):
                 inner = expected[1][0] if (expected is not None and not isinstance(expected, str) and expected[0] == "Option") else None
                 ftxt, ft = self.closure_body(args[0], [rt[1][0]], env, ctx, inner, ind, W)
                 return f"(option_map {self.atom(rtxt)} {ftxt})", ("Option", (ft,))
+            if name == "unwrap_or_else" and not isinstance(rt, str) and rt[0] == "Option":
+                if len(args) != 1:
+                    raise TrError(f"{W}: unwrap_or_else takes one closure")
+                ftxt, ft = self.closure_body(args[0], [], env, ctx, rt[1][0], ind, W)
+                self.unify(ft, rt[1][0], f"{W}: value of the closure of unwrap_or_else")
+                return f"(option_unwrap_or_else {self.atom(rtxt)} {ftxt})", rt[1][0]
             if name == "or_else":
                 raise TrError(f"{W}: `or_else` is only supported as the value a function returns")
         return super().tr_mcall(e, env, ctx, expected, ind)
@@ -651,6 +674,8 @@ SELFTEST_CASES = [
     ("ok_find_map", "(&mut self) -> Option<i32>", "let Self { r, k } = self; r.find_map(|y| if y > *k { Some(y) } else { None })", None,
      "(range_i32_find_map (It_r self) (fun y => (if (i32_gt y (It_k self)) then"),
     ("bad_destructure_shadow", "(&mut self) -> Option<i32>", "let Self { r, k } = self; r.find_map(|k| Some(k))", "shadows a name", None),
+    ("ok_unwrap_or_else", "(&self, o: Option<i32>) -> i32", "o.unwrap_or_else(|| self.k + 1)", None,
+     "(option_unwrap_or_else o (fun (_ : Unit) => (i32_add (It_k self) (1 : Int))))"),
     ("bad_find_place", "(&mut self, a: i32) -> Option<i32>", "self.r.find(|x| *x > a)", "only `<range>.clone().find(..)`", None),
     ("bad_try_value", "(&mut self) -> Option<i32>", "let y = self.r.next()? + 1; Some(y)", "`?` is only supported", None),
     ("bad_try_ret", "(&mut self) -> i32", "let y = self.r.next()?; y", "does not return an Option", None),
